@@ -9,6 +9,7 @@ from mirsym.models import val_eq, b_and, clone_val
 from mirsym import models_serde as ms, models_de as md
 from .common import outcome_of, is_sample, pool_keyid
 from .signed import FIXTURE_ED25519_PUB, ed25519_keyid
+from oracles.ref_wire import ref_wire
 
 CHANNELS=['borrowed','escaped','reader','tree']
 def sym_str(run,name,n,ascii_only=True):
@@ -122,13 +123,14 @@ class RoundTrip(Obligation):
                                          invocation=[none(),some(b.struct('Invocation',config_source=some(b.struct('ConfigSource',uri=some(uri('u')),digest=none(),entry_point=some(mk_string('e')))),parameters=none(),environment=none()))][run.pick(2,'inv2')],
                                          build_config=none(),metadata=meta(),materials=mats())
             pk=run.pick(3,'pred'); pred=[linkv02,slsa1,slsa2][pk]()
-            if w=='predicate': return pred
-            if run.pick(2,'stmt')==0:
-                return b.struct('StateNaive',typ=mk_string('link'),name=self.S(run,'sname','n'),materials=b.btreemap([]),products=b.btreemap([(b.vpath('p'),b.target_description([z3.BitVec('sp',8)]))]),
-                                env=none(),command=b.command([]),byproducts=b.byproducts(Int(32,True,0),'o','e'))
             ver=['LinkV0_2','SLSAProvenanceV0_1','SLSAProvenanceV0_2'][pk]
-            return b.struct('StateV01',typ=mk_string('https://in-toto.io/Statement/v0.1'),subject=b.btreemap([(b.vpath('p'),b.target_description([z3.BitVec('sp',8)]))]),
-                            predicate_type=b.variant('PredicateVer',ver),predicate=b.variant('PredicateWrapper',ver,[pred]))
+            # the values the parser hands out are the wrappers; they are what a consumer serialises again
+            if w=='predicate': return b.variant('PredicateWrapper',ver,[pred])
+            if run.pick(2,'stmt')==0:
+                return b.variant('StatementWrapper','Naive',[b.struct('StateNaive',typ=mk_string('link'),name=self.S(run,'sname','n'),materials=b.btreemap([]),products=b.btreemap([(b.vpath('p'),b.target_description([z3.BitVec('sp',8)]))]),
+                                env=none(),command=b.command([]),byproducts=b.byproducts(Int(32,True,0),'o','e'))])
+            return b.variant('StatementWrapper','V0_1',[b.struct('StateV01',typ=mk_string('https://in-toto.io/Statement/v0.1'),subject=b.btreemap([(b.vpath('p'),b.target_description([z3.BitVec('sp',8)]))]),
+                            predicate_type=b.variant('PredicateVer',ver),predicate=b.variant('PredicateWrapper',ver,[pred]))])
         raise Unsupported(w)
     def mk_args(self,run):
         x=self.mk(run)
@@ -140,7 +142,11 @@ class RoundTrip(Obligation):
         st,v,outs=out[1]
         if st!='ok':
             rec['outcome']='ser_err'; rec['viol']={'kind':'serialize_failed','known_key':None,'scenario':None,'predicted':'err','what':'serialisation of a representable value fails'}; return rec
-        scn=lambda m: {'kind':'wire','type':self.TYPE[self.what],'value':json_py(v,m)}
+        def scn(m):
+            d={'kind':'wire','type':self.TYPE[self.what],'value':json_py(v,m)}
+            ref=ref_wire(self.eng,g['x'],m)
+            if ref is not None: d['ref_value']=ref
+            return d
         rec['obl']+=1
         kinds=[o[0] for o in outs]
         rec['outcome']='/'.join(kinds)
@@ -153,7 +159,7 @@ class RoundTrip(Obligation):
                 eqs=b_and(*[val_eq(outs[0][1],o[1]) for o in outs[1:]])
                 r,m=run.check_sat(z3.Not(eqs.z()))
                 if r==z3.sat:
-                    rec['viol']={'kind':'channel_dependent_value','known_key':None,'scenario':scn(m),'predicted':'/'.join(kinds),'what':'the same document decodes to different values on different input channels'}; return rec
+                    rec['viol']={'kind':'channel_dependent_value','confirm':{'values_equal':False},'known_key':None,'scenario':scn(m),'predicted':'/'.join(kinds),'what':'the same document decodes to different values on different input channels'}; return rec
         else:
             # C16: the tree channel (and every channel that accepts) must give back the value
             oks=[o for o in outs if o[0]=='ok']
@@ -166,11 +172,13 @@ class RoundTrip(Obligation):
                 same=val_eq(g['x'],got)
                 r,m=run.check_sat(z3.Not(same.z()))
                 if r==z3.sat:
-                    rec['viol']={'kind':'roundtrip_changes_value','known_key':None,'scenario':scn(m),'predicted':'/'.join(kinds),'what':'serialise -> parse does not give back an equal value'}; return rec
+                    rec['viol']={'kind':'roundtrip_changes_value','confirm':{'roundtrip_equal':False},'known_key':None,'scenario':scn(m),'predicted':'/'.join(kinds),'what':'serialise -> parse does not give back an equal value'}; return rec
         if 'roundtrip_equal' not in self.seen and kinds[0]=='ok': self.seen.add('roundtrip_equal'); rec['wit'].append('roundtrip_equal')
         if is_sample(run,self.seed,self.rate):
             r,m=run.check_sat(z3.BoolVal(True))
-            if r==z3.sat: rec['sample']={'scenario':scn(m),'expect':'/'.join(kinds)}
+            if r==z3.sat:
+                rec['sample']={'scenario':scn(m),'expect':'/'.join(kinds)}
+                if self.prop!='C17' and 'ref_value' in rec['sample']['scenario'] and kinds[0]=='ok': rec['sample']['confirm']={'value_roundtrip':True}     # also validates the reference serialiser
         return rec
 
 def ed25519_keyid_noalgs(pub):
